@@ -1,8 +1,8 @@
 package rules
 
 import (
-	"sort"
 	"go/token"
+	"sort"
 	"strings"
 
 	"golang.org/x/tools/go/ssa"
